@@ -112,6 +112,7 @@ def main():
         n = 0
         budget = float(getattr(mod, "CASE_CPU_BUDGET_S", 20))
         signal.signal(signal.SIGVTALRM, _on_alarm)
+        M.rearm = lambda: signal.setitimer(signal.ITIMER_VIRTUAL, budget)
         for case in cases:
             M.current = case
             n += 1
@@ -131,6 +132,7 @@ def main():
                     M.notes.append(f"harness error on {case!r}: {traceback.format_exc(limit=6)}")
             finally:
                 signal.setitimer(signal.ITIMER_VIRTUAL, 0)
+        M.rearm = None
         M.current = None
         if hasattr(mod, "finish"):
             mod.finish(M)
